@@ -1044,8 +1044,11 @@ def tables_equal(a, b, rtol):
 # run
 # --------------------------------------------------------------------------
 def run(ctx):
-    ctx.build_with_translator(FILES, extra_files=['C17_Model.v', 'C17_Proofs.v', 'C17M_Proofs.v', 'C17M_Properties.v'],
-                              extra_obligation_files=['C17M_Properties.v'])   # moment centroid within the kernel box
+    from . import c14d
+    # C17M: moment centroid within the kernel box; C14D: the per-source statistics of the three star finders
+    ctx.build_with_translator(FILES, extra_files=['C17_Model.v', 'C17_Proofs.v', 'C17M_Proofs.v', 'C17M_Properties.v']
+                              + c14d.COQ_FILES,
+                              extra_obligation_files=['C17M_Properties.v'] + c14d.OBLIGATION_FILES)
     ctx.cov['rule'] = (
         'find_peaks: random small images (random/plateau/all-negative/ties/a candidate on every border cell/'
         'constant, quarter-dyadic scaling, NaN, +-inf) x thresholds on or between data values (scalar/2-D, NaN '
@@ -1377,6 +1380,9 @@ def run(ctx):
         ctx.violation(f'correspondence:C14_Model.check_case:{part}',
                       'model and implementation disagree although the direct oracle accepts the output',
                       detail, found_input=False)
+
+    # per-source statistics of DAOStarFinder / IRAFStarFinder / StarFinder against C14D_Model (own PRNG)
+    c14d.run_statistics_correspondence(ctx, 120 if ctx.tier == 'quick' else 1500)
 
 
 # --------------------------------------------------------------------------
